@@ -68,7 +68,8 @@ func c06Unwrap(b []byte) []byte {
 	return []byte(strings.Join(out, "\n"))
 }
 
-var c06Dates = []string{"2020-01-02", "1999-dec-31"}
+// incl. the last days of months of every length and a leap day in both spellings
+var c06Dates = []string{"2020-01-02", "1999-dec-31", "2024-02-29", "2000-Feb-29", "2023-04-30", "1970-01-01"}
 
 var c06Markers = []string{"1.", "12.", "a)", "b.", "iv.", "3.1.", "2)", "c:"}
 
@@ -586,7 +587,7 @@ func c06Match(c *vrep.Ctx) {
 	}
 	positions := c.ParamInt("positions", c.Pick(3, 12))
 	kinds := strings.Split(c.Param("kinds", strings.Join(c06Kinds, ",")), ",")
-	c.R.Rule = fmt.Sprintf("Match level: %d documents in OOV context x edit kinds %v (8 notice templates, 2 date forms, 8 markers on one/all eligible lines, word splits at every split point, 35 spelling pairs both directions, http<->https) at up to %d evenly spread positions (0 = every position); license matches must be identical (names, variants, confidences, token spans, mapped lines) and every inserted notice reported on its line; non-trivial = distinct (document, edit) cases whose base input has a license match", len(docs), kinds, positions)
+	c.R.Rule = fmt.Sprintf("Match level: %d documents in OOV context x edit kinds %v (12 notice templates, 6 dates (month ends, a leap day), 8 markers on one/all eligible lines, word splits at every split point, 35 spelling pairs both directions, http<->https) at up to %d evenly spread positions (0 = every position); license matches must be identical (names, variants, confidences, token spans, mapped lines) and every inserted notice reported on its line; non-trivial = distinct (document, edit) cases whose base input has a license match", len(docs), kinds, positions)
 	c.Bound("documents", len(docs))
 	c.Bound("positions_per_document", positions)
 	baseCache := map[string]Results{}
